@@ -177,6 +177,18 @@ def run(ctx):
                 if not any(allowed):
                     bad.append([s_[:60] for s_, t in conds][:6])
         ctx.check(bool(rem) and bool(keep) and not bad, "C14.attributes", "C14.attributes:whitelist", w.where(main), bad_msg=f"kept without being allowed: {bad[:1]}")
+        # the allow-lists hold HTML attribute names: an attribute in a namespace (`xlink:href`, `xml:lang` inside <svg>/<math>) is serialized with its prefix,
+        # so matching its local name alone lets an attribute through that an HTML parser reads under another name
+        bad_ns = []
+        for p in keep:
+            conds = [(D.show_atom(a), t) for a, t in p.conds]
+            if any(t for s_, t in conds if "whitelist_attrs" in s_):
+                ns_ok = any(("attr.name.ns" in s_ and (("is_empty(" in s_ and t) or (s_.endswith("==''") and t))) for s_, t in conds)
+                if not ns_ok:
+                    bad_ns.append([s_[:50] for s_, t in conds][:5])
+        ctx.check(not bad_ns, "C14.attributes", "C14.attributes:namespace", w.where(main),
+                  bad_msg=f"under an attribute whitelist an attribute is kept on a path that never looks at its namespace ({bad_ns[:1]}): "
+                          f"`<svg><a xlink:href=..>` keeps `xlink:href` because its local name `href` is allowed on `a`")
     # ---- class filter -------------------------------------------------------------------------------------------------------
     ctx.rule("C14.classes", "the `class` value is tokenised on ASCII/Unicode whitespace exactly as an HTML parser splits it (str::split_whitespace / "
                             "split_ascii_whitespace, no other splitter); under a class whitelist a token is retained only after a WildMatch allow "
